@@ -111,9 +111,9 @@ def gen(decls, prefix='g17'):
             v = 'p%d' % o['argi']
             if o['kind'] == 'scalar': continue
             if o['kind'] in ('outreg', 'inreg') or o['pos'] == 'none': ext = '%d' % W
-            elif o['pos'] == 'stride': j = o['posargi']; req.append('p%d <= %d' % (j, SB)); ext = '(%d * p%d + 1)' % (W - 1, j)
+            elif o['pos'] == 'stride': j = o['posargi']; req.append('p%d <= %d' % (j, SB)); req.append('%s(p%d)' % ('STRIDEPAT_OUT' if o is sh['result'] else 'STRIDEPAT_IN', j)); ext = '(%d * p%d + 1)' % (W - 1, j)
             else:
-                j = o['posargi']; req.append('__CPROVER_is_fresh(p%d, %d)' % (j, 8 * W)); req += ['p%d[%d] <= %d' % (j, k, SB) for k in range(W)]; req.append('IDXPAT%d(p%d)' % (W, j))
+                j = o['posargi']; req.append('FRESH_IDX(p%d, %d)' % (j, 8 * W)); req += ['p%d[%d] <= %d' % (j, k, SB) for k in range(W)]; req.append('%s%d(p%d)' % ('IDXPAT_OUT' if o is sh['result'] else 'IDXPAT_IN', W, j))
                 mx = 'p%d[0]' % j
                 for k in range(1, W): mx = '(%s > p%d[%d] ? %s : p%d[%d])' % (mx, j, k, mx, j, k)
                 ext = '(%s + 1)' % mx
@@ -135,9 +135,15 @@ def gen(decls, prefix='g17'):
                 ens.append(f % (R, A, B))
         ct.append('void %s(%s)\n  __CPROVER_requires(%s)\n  __CPROVER_assigns(%s)\n  __CPROVER_ensures(%s);' % (
             uid, ', '.join(p for _, p in cdecl), ' && '.join(req) or '1', ', '.join(assigns), ' && '.join(ens)))
+        # harness: nondet arguments; strides / index lists go through SH_* macros (literal constants in the concrete-shape builds)
+        special = {}
+        for o in [sh['result']] + sh['ops']:
+            io = 'OUT' if o is sh['result'] else 'IN'
+            if o['pos'] == 'stride': special[o['posargi']] = 'SH_STRIDE_%s(p%d)' % (io, o['posargi'])
+            if o['pos'] == 'idx': special[o['posargi']] = 'SH_IDX_%s%d(p%d)' % (io, W, o['posargi'])
         hv = '; '.join(re.sub(r'^const ', '', p) for _, p in cdecl)
-        ct.append('void h_%s(void) { %s; %s(%s); VF_SENTINEL; }\n' % (uid, hv, uid, ', '.join(p.split()[-1].lstrip('*') for _, p in cdecl)))
-        table.append(dict(uid=uid, name=name, params=plist, op=op, W=W, has_idx=any(o['pos'] == 'idx' for o in [sh['result']] + sh['ops'])))
+        ct.append('void h_%s(void) { %s; %s(%s); VF_SENTINEL; }\n' % (uid, hv, uid, ', '.join(special.get(i, p.split()[-1].lstrip('*')) for i, p in cdecl)))
+        table.append(dict(uid=uid, name=name, params=plist, op=op, W=W, has_idx=any(o['pos'] == 'idx' for o in [sh['result']] + sh['ops']), has_stride=any(o['pos'] == 'stride' for o in [sh['result']] + sh['ops'])))
     return wr, ct, table
 
 
